@@ -161,6 +161,34 @@ theorem C07q_view (c : Cmp α) (hc : SWO c.lt) (lim : Limits) (hlim : 0 < lim.mi
   have hi := (C07q_reach_inv c hc lim hlim h).1
   exact ⟨view_total hc hi, view_length hc hi, view_sorted hc hi, fun x incl => view_rankNum hc hi x incl⟩
 
+/-- **rank_mono, rank_incl_ge_excl, rank ≤ 1**: the rank numerator is monotone in the query point, the inclusive one is
+at least the exclusive one, and none exceeds the total `n` -/
+theorem C07q_rank_monotone (c : Cmp α) (hc : SWO c.lt) (lim : Limits) (hlim : 0 < lim.minK) {ops : List (Op α)}
+    {id : Nat} {s : Sketch α} {items : List α} (h : Reach c lim ops id s items) :
+    (∀ x y incl, c.lt y x = false →
+      SortedView.rankNum c.lt (s.view c) x incl ≤ SortedView.rankNum c.lt (s.view c) y incl) ∧
+    (∀ x, SortedView.rankNum c.lt (s.view c) x false ≤ SortedView.rankNum c.lt (s.view c) x true) ∧
+    (∀ x incl, SortedView.rankNum c.lt (s.view c) x incl ≤ (s.view c).total) := by
+  have hi := (C07q_reach_inv c hc lim hlim h).1
+  refine ⟨?_, ?_, ?_⟩
+  · intro x y incl hxy
+    rw [view_rankNum hc hi, view_rankNum hc hi]
+    exact wSketch_mono (belowP_mono hc hxy incl) s
+  · intro x
+    rw [view_rankNum hc hi, view_rankNum hc hi]
+    exact wSketch_mono (belowP_excl_incl hc x) s
+  · intro x incl
+    rw [view_rankNum hc hi, view_total hc hi]
+    have h1 := wSketch_mono (p := belowP c.lt x incl) (q := fun _ => true) (fun _ _ => rfl) s
+    have h2 : wSketch (fun _ => true) s = s.n := by
+      have := (expectedIter_facts hi).2
+      rw [← this, ← selW_expectedIter]
+      generalize expectedIter s = l
+      induction l with
+      | nil => rfl
+      | cons e t ih => simp [selW, ih]
+    omega
+
 /-- **exact_mode_exact**: while `n < 2k` (nothing compacted) the rank numerator of every `x` is the number of
 accepted items `≤ x` (resp. `< x`) over the denominator `n = |items|`, and for every integer weight threshold `w`
 (the code computes `⌈r·n⌉` inclusive / `⌊r·n⌋` exclusive from the rank `r` in doubles) the quantile is the element of
